@@ -13,7 +13,7 @@ use uom::si::length::meter;
 pub fn def() -> PropDef {
     PropDef {
         id: "C16",
-        rule: "inputs: helices with centre within +-3 m, radius 0.03-5 m, any phase, pitch 0 / +-subnormal / +-1e-17..1e2 m (one class per decade, equal weight), and points (a) anywhere in the drift volume, (b) within 1 cm of the helix with the z offset scaled by min(|h|,1) so that tiny pitches still give interior parameters, (c) bit-exactly on the helix axis (axis on the beam line or on the x axis), up to 3 pitches from z0; direct call of the closest-point routine through the hook with the callers' tolerance and iteration limit; plus t_inner / t_outer of fitted tracks against the cluster's innermost / outermost point (hook-free on clustered helices; and one group of every point family fitted through the Cluster hook, in given or reversed order, optionally with a stray hit at the inner or outer end shifted by up to 150 mrad and 3 cm; only point sets that are connected under the 3 cm linkage, as every Cluster of the library is), and the per-track parameters of a primary vertex against the vertex position (fitted tracks; hook-built sets of 2-6 tracks through or within 2 cm of a common point 0-30 cm off the beam axis, each circle also passing within 7 cm of the axis; the track sets of C14); oracle: t is not NaN and in [-pi, pi]; if strictly inside, dist(point, at(t)) <= min over s in [-pi, pi] of dist(point, at(s)) + 1e-9 m, the minimum found by a 20001-point grid with golden-section refinement around the best cells and both end points (at = the library's Track::at, so only the choice of t is judged; both distances are exact only to a few ulps of the helix's largest parameter, so 16 eps x max(that size, the two distances) is added to the 1e-9 m - 3.6e-14 m for a 10 m helix, decisive only for the 1e14 m helices that fit straight chords and for vertex fits of flat tracks that end 4e9 m away); non-trivial = t strictly inside (-pi, pi); distinct by (pitch decade, case hash)",
+        rule: "inputs: helices with centre within +-3 m, radius 0.03-5 m, any phase, pitch 0 / +-subnormal / +-1e-17..1e2 m (one class per decade, equal weight), and points (a) anywhere in the drift volume, (b) within 1 cm of the helix with the z offset scaled by min(|h|,1) so that tiny pitches still give interior parameters, (c) bit-exactly on the helix axis (axis on the beam line or on the x axis), up to 3 pitches from z0, (d) sweeps of 4-40 neighbouring points around one helix asked one after the other on one thread (eccentricity 0.1-30; through the half-plane where the root of Kepler's equation changes sign); direct call of the closest-point routine through the hook with the callers' tolerance and iteration limit; plus t_inner / t_outer of fitted tracks against the cluster's innermost / outermost point (hook-free on clustered helices; and one group of every point family fitted through the Cluster hook, in given or reversed order, optionally with a stray hit at the inner or outer end shifted by up to 150 mrad and 3 cm; only point sets that are connected under the 3 cm linkage, as every Cluster of the library is), and the per-track parameters of a primary vertex against the vertex position (fitted tracks; hook-built sets of 2-6 tracks through or within 2 cm of a common point 0-30 cm off the beam axis, each circle also passing within 7 cm of the axis; the track sets of C14); oracle: t is not NaN and in [-pi, pi]; if strictly inside, dist(point, at(t)) <= min over s in [-pi, pi] of dist(point, at(s)) + 1e-9 m, the minimum found by a 20001-point grid with golden-section refinement around the best cells and both end points (at = the library's Track::at, so only the choice of t is judged; both distances are exact only to a few ulps of the helix's largest parameter, so 16 eps x max(that size, the two distances) is added to the 1e-9 m - 3.6e-14 m for a 10 m helix, decisive only for the 1e14 m helices that fit straight chords and for vertex fits of flat tracks that end 4e9 m away); non-trivial = t strictly inside (-pi, pi); distinct by (pitch decade, case hash)",
         assumptions: &["closest_t is reached through reconstruction::verif_hooks::closest_t (same tolerance f64::EPSILON and 20 iterations as every caller)"],
         run,
         replay,
@@ -470,6 +470,56 @@ fn end_case() -> impl Strategy<Value = EndCase> {
     (g, proptest::option::weighted(0.4, (any::<bool>(), prop_oneof![-150i16..=150, Just(0i16)], -30i16..=30)), any::<bool>()).prop_map(|(group, stray, reverse)| EndCase { group, stray, reverse })
 }
 
+
+// ------------------------------------------------------------------ histories of calls
+
+/// The answer may not depend on what was asked before: a sweep of neighbouring
+/// points around one helix, asked one after the other on one thread, each
+/// judged on its own. The sweep is azimuthal around the helix axis at a fixed
+/// distance and height, through the half-plane opposite to the helix, where the
+/// right root of Kepler's equation changes sign (tight helices, e > 1).
+#[derive(Clone, Debug, Serialize, Deserialize)]
+pub struct SweepCase {
+    pub helix: [Fx; 6],
+    pub d_axis: Fx,
+    pub dz: Fx,
+    pub start_mrad: i16,
+    pub step_mrad: i16,
+    pub steps: u8,
+}
+
+fn sweep(c: &SweepCase, ev: &mut Ev) -> Outcome {
+    let h = un6(&c.helix);
+    let t = track_of(&h, 0.0, 0.0);
+    // azimuth (around the axis) of the helix point at the height of the sweep
+    let zq = h[2] + c.dz.0;
+    let on_helix = h[4] + 2.0 * PI * c.dz.0 / if h[5] == 0.0 { 1.0 } else { h[5] };
+    let mut interior = 0;
+    for k in 0..c.steps.max(2) as i32 {
+        ev.eval();
+        let a = on_helix + PI + (c.start_mrad as f64 + k as f64 * c.step_mrad as f64) * 1e-3;
+        let point = sp_xyz(h[0] + c.d_axis.0 * a.cos(), h[1] + c.d_axis.0 * a.sin(), zq);
+        let q = xyz(&point);
+        let tt = no_panic("closest_t", || rh::closest_t(&t, point))?;
+        if judge(&t, q, tt, &format!("closest_t, call {k} of a sweep"))? {
+            interior += 1;
+        }
+    }
+    if interior >= 2 {
+        ev.nontrivial(fingerprint(&format!("{c:?}")));
+        ev.label("sweep:interior");
+    }
+    Ok(())
+}
+
+fn sweep_case() -> impl Strategy<Value = SweepCase> {
+    // tight and ordinary helices: eccentricity e = 4 pi^2 d R / h^2 from 0.1 to 30
+    ((-0.3f64..=0.3, -0.3f64..=0.3, -0.5f64..=0.5, 0.05f64..=1.0, -PI..=PI), (0.02f64..0.3, 0.1f64..30.0, any::<bool>()), (-0.3f64..=0.3, -60i16..=60, prop_oneof![Just(4i16), Just(-4i16), 1i16..=20, -20i16..=-1], 4u8..=40)).prop_map(|((x0, y0, z0, radius, phi0), (d_axis, e, neg), (dzf, start_mrad, step_mrad, steps))| {
+        let pitch = 2.0 * PI * (d_axis * radius / e).sqrt() * if neg { -1.0 } else { 1.0 };
+        SweepCase { helix: fx6([x0, y0, z0, radius, phi0, pitch]), d_axis: Fx(d_axis), dz: Fx(dzf * pitch.abs()), start_mrad, step_mrad, steps }
+    })
+}
+
 fn helix_only() -> impl Strategy<Value = PointsCase> {
     (proptest::collection::vec((1u8..=4, 0u16..800, 20u16..=60, any::<u64>()), 1..=4)).prop_map(|v| PointsCase {
         groups: v.into_iter().map(|(spacing_mm, noise_um, n, seed)| Group { family: Family::Helix { spacing_mm, noise_um }, n, seed, flat: 0 }).collect(),
@@ -483,6 +533,7 @@ fn run(r: &Run) {
     r.prop("closest_t_kepler_coordinates", t.pick(60_000, 12_000_000), kepler_case, kepler);
     r.prop("fitted_tracks_and_vertices", t.pick(400, 20_000), helix_only, fitted);
     r.prop("fitted_tracks_any_family", t.pick(1_500, 150_000), || points_case(300), fitted);
+    r.prop("closest_t_sweeps", t.pick(1_500, 60_000), sweep_case, sweep);
     r.prop("end_points_of_fitted_groups", t.pick(3_000, 400_000), end_case, end_points);
     r.prop("vertex_parameters_crossing_tracks", t.pick(3_000, 150_000), crossing_case, crossing);
     r.prop("vertex_parameters_track_sets", t.pick(1_500, 75_000), super::c14::track_set, track_sets);
@@ -495,6 +546,7 @@ fn replay(_r: &Run, check: &str, case: &Value) -> Option<Outcome> {
         "closest_t_kepler_coordinates" => replay_case(case, kepler),
         "vertex_parameters_crossing_tracks" => replay_case(case, crossing),
         "end_points_of_fitted_groups" => replay_case(case, end_points),
+        "closest_t_sweeps" => replay_case(case, sweep),
         "vertex_parameters_track_sets" => replay_case(case, track_sets),
         _ => return None,
     })
